@@ -96,6 +96,12 @@ def models():
                        (("/", V("x"), ("+", num(1), ("*", V("x"), V("x")))), ("+", ("+", num(0.3), V("k")), ("*", num(0.1), ("-", V("x", -1), num(1.0 / 3.0)))))],
                   linear=False, guess={"k": 0.0, "x": 1.0 / 3.0},
                   extra_singles=[("u", "e", 2, 0.5), ("u", "e", 3, -0.5), ("u", "e", 1, 0.5)]))
+    # 12. longest lead 2 with TWO current-dated variables: the first-order terminal condition is a genuine
+    #     (variables x leads) block, not a single row or a single column (round-8 seed C06_m)
+    M.append(dict(name="lin_lead2_two", vars=["x", "y"], log=[], shocks=["e", "u"], exog=[], params={"a": 0.6, "b": 0.3, "c": 0.5},
+                  eqs=[(V("x"), ("+", ("+", ("+", ("*", Pm("a"), V("x", -1)), ("*", Pm("b"), V("y", 2))), num(0.1)), V("e"))),
+                       (V("y"), ("+", ("+", ("+", ("*", Pm("c"), V("y", -1)), ("*", num(0.2), V("x"))), num(0.2)), V("u")))],
+                  linear=True, guess={}))
     for md in M:
         md["measurement"] = True
     return M
